@@ -32,6 +32,7 @@ TYPES = {
     "Tagged": {"ps": [], "cs": [{"n": "Noop", "fs": [], "ls": None}, {"n": "Halt", "fs": [INT], "ls": None, "tag": 200},
                                 {"n": "Go", "fs": [BYTES], "ls": None, "tag": 7}]},
     "Rec5": {"ps": [], "cs": [{"n": "Rec5", "fs": [INT, BOOL], "ls": ["a", "b"], "tag": 5}], "type_tag": True},
+    "RecL": {"ps": [], "cs": [{"n": "RecL", "fs": [INT, BYTES, TOption(INT)], "ls": ["a", "b", "c"]}], "type_list": True},
     "Inner": {"ps": ["b"], "cs": [{"n": "Inner", "fs": [TList(TVar("b"))], "ls": ["inner"]}]},
     "Wrap": {"ps": ["a"], "cs": [{"n": "Wrap", "fs": [TAdt("Inner", TVar("a")), INT], "ls": ["w", "n"]}]},
 }
@@ -39,7 +40,8 @@ TYPES = {
 
 def spec_types(types=TYPES):
     """the catalogue in the shape Aiken.tla wants"""
-    return {n: {"ps": d["ps"], "cs": [dict({"n": c["n"], "fs": c["fs"]}, **({"tag": c["tag"]} if "tag" in c else {})) for c in d["cs"]]}
+    return {n: dict({"ps": d["ps"], "cs": [dict({"n": c["n"], "fs": c["fs"]}, **({"tag": c["tag"]} if "tag" in c else {})) for c in d["cs"]]},
+                    **({"enc": "list"} if d.get("type_list") else {}))
             for n, d in types.items()}
 
 
@@ -150,6 +152,8 @@ def to_data(ty, v):
         return {"d": "L", "v": [to_data(e, x) for e, x in zip(ty["es"], v["xs"])]}
     if t == "Pair":
         return {"d": "L", "v": [to_data(ty["a"], v["a"]), to_data(ty["b"], v["b"])]}
+    if t == "adt" and TYPES[ty["n"]].get("type_list"):
+        return {"d": "L", "v": [to_data(f, x) for f, x in zip(field_types(ty, 0), v["fs"])]}
     if t == "adt":
         return {"d": "C", "tag": TYPES[ty["n"]]["cs"][v["i"]].get("tag", v["i"]),
                 "fs": [to_data(f, x) for f, x in zip(field_types(ty, v["i"]), v["fs"])]}
@@ -931,6 +935,10 @@ def render_types(types=TYPES):
         if d.get("builtin"):
             continue
         ps = "<%s>" % ", ".join(d["ps"]) if d["ps"] else ""
+        if d.get("type_list"):     # record encoded as a plain list
+            c = d["cs"][0]
+            out.append("@list\npub type %s%s {\n%s\n}\n" % (n, ps, "\n".join("  %s: %s," % (l, ty_str(f)) for l, f in zip(c["ls"], c["fs"]))))
+            continue
         if d.get("type_tag"):      # record shorthand with the tag on the type
             c = d["cs"][0]
             out.append("@tag(%d)\npub type %s%s {\n%s\n}\n" % (c["tag"], n, ps, "\n".join("  %s: %s," % (l, ty_str(f)) for l, f in zip(c["ls"], c["fs"]))))
